@@ -23,22 +23,24 @@ pub fn configs(prop: Prop, thorough: bool) -> Vec<(E1Cfg, Vec<Bound>)> {
         Prop::C01 => {
             // quick bounds are sized so that every level completes (deterministic coverage);
             // thorough adds the next level to each harness
-            let b11 = vec![Bound::new(0, 0), Bound::new(1, 1)];
+            let _b11 = vec![Bound::new(0, 0), Bound::new(1, 1)];
             let b21 = vec![Bound::new(0, 0), Bound::new(1, 1), Bound::new(2, 1)];
             let b22 = vec![Bound::new(0, 0), Bound::new(1, 1), Bound::new(2, 2)];
             let b_small = if thorough { vec![Bound::new(0, 0), Bound::new(1, 1), Bound::new(2, 2), Bound::new(3, 3)] } else { b22.clone() };
             let mut c = E1Cfg::base(prop, "c01-2app-1req-N1", 1, vec![vec![r4.clone()], vec![r4.clone()]]);
             c.reorder = true;
             v.push((c, if thorough { b22.clone() } else { b21.clone() }));
+            // two preemptions or one preemption + one reordering, but not three deviations
+            let b21t2 = vec![Bound::new(0, 0), Bound::new(1, 1), Bound { preempt: 2, env: 1, total: 2 }];
             let mut c = E1Cfg::base(prop, "c01-2app-1req-N2", 2, vec![vec![r4.clone()], vec![w3.clone()]]);
             c.reorder = true;
-            v.push((c, if thorough { b21.clone() } else { b11.clone() }));
+            v.push((c, if thorough { b21.clone() } else { b21t2.clone() }));
             let mut c = E1Cfg::base(prop, "c01-1app-2req-N1", 1, vec![vec![r4.clone(), w3.clone()]]);
             c.reorder = true;
             v.push((c, b_small.clone()));
             let mut c = E1Cfg::base(prop, "c01-multi+single-N2", 2, vec![vec![m2.clone()], vec![r4.clone()]]);
             c.reorder = true;
-            v.push((c, if thorough { b21.clone() } else { b11.clone() }));
+            v.push((c, if thorough { b21.clone() } else { b21t2.clone() }));
             // view family: every length 0..=8 x every front-trim amount 0..=len+1 (sequential)
             for len in 0..=8u16 {
                 let reqs: Vec<Req> = (0..=(len as usize + 1)).map(|ct| Req::ReadTrim { len, ct }).collect();
@@ -68,7 +70,7 @@ pub fn configs(prop: Prop, thorough: bool) -> Vec<(E1Cfg, Vec<Bound>)> {
         }
         Prop::C02 => {
             let b_quick = vec![Bound::new(0, 0), Bound::new(1, 1), Bound::new(2, 1)];
-            let b11 = vec![Bound::new(0, 0), Bound::new(1, 1)];
+            let _b11 = vec![Bound::new(0, 0), Bound::new(1, 1)];
             // two preemptions or one preemption + one fault, but not three deviations
             let b21t2 = vec![Bound::new(0, 0), Bound::new(1, 1), Bound { preempt: 2, env: 1, total: 2 }];
             let mut c = E1Cfg::base(prop, "c02-2app-N1-faults", 1, vec![vec![r4.clone()], vec![w3.clone()]]);
@@ -80,7 +82,7 @@ pub fn configs(prop: Prop, thorough: bool) -> Vec<(E1Cfg, Vec<Bound>)> {
             c.send_faults = true;
             c.reorder = true;
             c.duplicates = true;
-            v.push((c, if thorough { b21t2.clone() } else { b11.clone() }));
+            v.push((c, if thorough { b_quick.clone() } else { b21t2.clone() }));
             let mut c = E1Cfg::base(prop, "c02-1app-2req-N1-faults", 1, vec![vec![w3.clone(), r4.clone()]]);
             c.send_faults = true;
             c.duplicates = true;
@@ -170,7 +172,8 @@ pub fn configs(prop: Prop, thorough: bool) -> Vec<(E1Cfg, Vec<Bound>)> {
                 c.clock = true;
                 c.lose_tags = vec![1];
                 c.retry = retry;
-                v.push((c, if thorough { t2.clone() } else { t1.clone() }));
+                // without retries the space is small enough for two deviations in the quick tier
+                v.push((c, if thorough || retry == Retry::None { t2.clone() } else { t1.clone() }));
             }
             let mut c = E1Cfg::base(prop, "c06-2app-N2-loss-abandon", 2, vec![vec![r4.clone()], vec![w3.clone()]]);
             c.abandon = true;
